@@ -108,7 +108,7 @@ func validateStore(st ttStore, rcfg refsearch.Config) (bool, error) {
 }
 
 type ttStep struct {
-	Op    string `json:"op"` // search | move | halt (a search cancelled at its N-th cancellation poll, as the engine does on stop/new position)
+	Op    string `json:"op"` // search | move | takeback | halt (a search cancelled at its N-th cancellation poll, as the engine does on stop/new position)
 	Depth int    `json:"depth,omitempty"`
 	Move  string `json:"move,omitempty"`
 	N     int    `json:"n,omitempty"`
@@ -156,10 +156,22 @@ var checkC11 = def("C11/transparent", func(c ttCase) error {
 				}
 				g1.Push(om)
 				refs = append(refs, rootRef{})
+			case "takeback":
+				if _, ok := b1.PopMove(); !ok || !g1.Pop() {
+					return fmt.Errorf("case: step %d takes back with no move played", i)
+				}
+				refs = append(refs, rootRef{})
 			case "search", "halt":
-				if g1.DrawEver() || b1.Result().Outcome == board.Draw {
-					stats.Case("C11/transparent", 0, false, "discarded-drawn-root")
-					return nil
+				// the property's precondition: no repetition / fifty-move draw in play (a root
+				// that is merely flagged for insufficient material is position-determined enough:
+				// the flag only ever arises from the capture leading to it)
+				for _, fired := range g1.Fired {
+					for _, r := range fired {
+						if r != oracle.RuleInsufficient {
+							stats.Case("C11/transparent", 0, false, "discarded-repetition-or-fifty-at-root")
+							return nil
+						}
+					}
 				}
 				_, rcfg := cfg.make(c.Param)
 				rcfg.Budget = 40_000
@@ -188,6 +200,7 @@ var checkC11 = def("C11/transparent", func(c ttCase) error {
 	rec := newRecTT(c.TableBytes)
 	s, rcfg := cfg.make(c.Param)
 	nsearch, halts := 0, 0
+	tookBack := false
 	for i, st := range c.Steps {
 		if st.Op == "move" {
 			om, _ := g.Cur().Pos.FindMove(st.Move)
@@ -195,6 +208,12 @@ var checkC11 = def("C11/transparent", func(c ttCase) error {
 				return err
 			}
 			g.Push(om)
+			continue
+		}
+		if st.Op == "takeback" {
+			b.PopMove()
+			g.Pop()
+			tookBack = true
 			continue
 		}
 		ref := refs[i].ref
@@ -291,6 +310,9 @@ var checkC11 = def("C11/transparent", func(c ttCase) error {
 	if halts > 0 {
 		labels = append(labels, "halted-search-in-sequence")
 	}
+	if tookBack {
+		labels = append(labels, "take-back-in-sequence")
+	}
 	stats.Case("C11/transparent", stats.FP(c.FEN, fmt.Sprint(c.Moves), c.Config, c.Param, c.TableBytes, fmt.Sprint(c.Steps)), rec.exactHitsEarlier > 0 || rec.hitsSame > 0, labels...)
 	stats.Note("C11/transparent", "searches", int64(nsearch))
 	stats.Note("C11/transparent", "exact_stores", int64(len(exact)))
@@ -303,7 +325,7 @@ var tableSizes = []uint64{32, 64, 256, 4096, 1 << 16, 4 << 20}
 
 func positionDeterminedConfigs() []searchConfig {
 	var ret []searchConfig
-	for _, c := range searchConfigs {
+	for _, c := range abConfigs {
 		if c.PositionDetermined {
 			ret = append(ret, c)
 		}
@@ -339,7 +361,7 @@ func genTTCase(t *rapid.T) ttCase {
 			c.Steps = append(c.Steps, ttStep{Op: "move", Move: m.String()})
 		}
 	}
-	switch rapid.IntRange(0, 3).Draw(t, "pattern") {
+	switch rapid.IntRange(0, 4).Draw(t, "pattern") {
 	case 0: // iterative deepening
 		for k := 1; k <= d; k++ {
 			c.Steps = append(c.Steps, ttStep{Op: "search", Depth: k})
@@ -350,6 +372,20 @@ func genTTCase(t *rapid.T) ttCase {
 	case 1: // the same search twice, then one deeper/shallower
 		c.Steps = append(c.Steps, ttStep{Op: "search", Depth: d}, ttStep{Op: "search", Depth: d})
 		c.Steps = append(c.Steps, ttStep{Op: "search", Depth: rapid.IntRange(1, d).Draw(t, "d3")})
+	case 2: // analyse, play on (captures preferred), take back, analyse the earlier position deeper
+		c.Steps = append(c.Steps, ttStep{Op: "search", Depth: max(1, d-1)})
+		before := len(g.Moves)
+		pol = gen.Policy{8, 1, 2, 4, 1, 1, 4, 0, 1, 1}
+		addMoves(rapid.IntRange(1, 2).Draw(t, "plies"))
+		played := len(g.Moves) - before
+		c.Steps = append(c.Steps, ttStep{Op: "search", Depth: max(1, d-rapid.IntRange(0, 1).Draw(t, "shallower"))})
+		for k := 0; k < played; k++ {
+			g.Pop()
+			c.Steps = append(c.Steps, ttStep{Op: "takeback"})
+			if rapid.Bool().Draw(t, "searchhere") || k == played-1 {
+				c.Steps = append(c.Steps, ttStep{Op: "search", Depth: min(4, d+rapid.IntRange(0, 1).Draw(t, "deeper"))})
+			}
+		}
 	default: // successive positions of a game
 		n := rapid.IntRange(2, 4).Draw(t, "rounds")
 		for i := 0; i < n; i++ {
